@@ -1,3 +1,31 @@
 (* C03 -- the AUTOFIX log exactly accounts for what --autofix did to each file.
-   Only statements; every proof is `exact <lemma>`. *)
-From PV Require Import Lib.Bytes Spec.ApplyLog.
+   Only statements; every proof is `exact <lemma>`.
+
+   Model   : Model/Autofix.v   (v23/autofix.go, line.go, plist.go sorter, checkExecutable)
+   Spec    : Spec/ApplyLog.v   (apply the printed log to the old bytes)
+   A history is any list of events: fix transactions (line.Autofix(); diag; any
+   operations; Apply) on any lines in any order, SaveAutofixChanges, the
+   executable-bit check; [wf_groups] says that the logical lines are a partition
+   of the physical lines of the file (any grouping into continuation lines). *)
+From PV Require Import Lib.Bytes Spec.ApplyLog Model.Autofix Proofs.ApplyLog Proofs.Autofix.
+Open Scope Z_scope.
+
+(* what SaveAutofixChanges writes for the file is consistent with the AUTOFIX lines
+   printed for it: for ALL files, groupings, option sets with --autofix, histories *)
+Theorem C03_save_consistent_with_log :
+  forall o keys file content groups evs st,
+    o_autofix o = true -> wf_groups content groups -> Forall no_sort_event evs ->
+    run o keys evs (init_state file groups) = Ok st ->
+    consistent content (entries_of file (s_log st)) (file_content file (s_store st)) = true.
+Proof. exact save_consistent_with_log. Qed.
+Print Assumptions C03_save_consistent_with_log.
+
+(* ... and so are the bytes on disk (tmp file + rename, or nothing written at all)
+   after any history that ends with a save *)
+Theorem C03_disk_consistent_with_log :
+  forall o keys file content groups evs st,
+    o_autofix o = true -> wf_groups content groups -> Forall no_sort_event evs ->
+    run o keys (evs ++ [ESave]) (init_state file groups) = Ok st ->
+    consistent content (entries_of file (s_log st)) (disk_after file content None (s_ops st)) = true.
+Proof. exact disk_consistent_with_log. Qed.
+Print Assumptions C03_disk_consistent_with_log.
